@@ -103,3 +103,9 @@ claim("C16",
       "Decides the structural part of 'a construct the generator cannot translate is reported as a compile error, never silently dropped': every special handler reads every content field of its node type (so a field added to a node with a handler cannot vanish from compiled programs), each handler asserts the type it is registered for, the reflective route returns an error for unexported fields, unsupported kinds and route-less nodes, and declarations registered in the VM by the parser are re-attached for every file shape (two listed findings: classes of files without a namespace, and all interfaces, are absent from compiled programs). Equality of compiled and interpreted behaviour needs execution and is not decided.",
       "handler table = the single specialHandlers map literal; run-time-only fields tabled with reasons; a node handed whole to a helper counts as fully read",
       "DESIGN.md §2 C16")
+
+claim("C08",
+      "edge-coverage check over the same-package call closure of every subtype decision entry point (extends / implements-of-ancestors / interface-extends read inside a loop or recursion); loop-shape check of method lookup; structure check of the `like` test",
+      "Decides that each implementation of the subtype relation (data.Class.Is and its helpers for class, $this and thrown values; node.checkClassIs used by instanceof) consults every kind of hierarchy edge — an implementation that never reads an edge kind cannot honour it — that method lookup starts at the runtime class and walks the whole extends chain, and that `like` requires every target method with equal parameter count through an inheriting lookup. These are necessary conditions only: a wrong comparison inside a walk, and the parent::/self::/static:: resolution that depends on runtime context objects, are not decided (observation: self::class yields the runtime class on the pinned tree).",
+      "entry points listed by name and resolved through the type checker; closure limited to statically resolved same-package calls",
+      "DESIGN.md §2 C08")
